@@ -24,7 +24,10 @@ CASE_TIMEOUT = 3000
 RULE = ("programs = every statement sequence (<=3 top-level statements plus the "
         "label, bodies <=2, loop depth <=2, IF nesting <=1 around guarded transfers) over {assignment, DO loop, IF (c) EXIT / CYCLE / RETURN / "
         "GOTO 10, 10 CONTINUE before (backward) or after (forward) the GOTO in any "
-        "enclosing sequence, IF-THEN[-ELSE]} up to the size bound in bounds(); "
+        "enclosing sequence, IF-THEN[-ELSE], DO WHILE (k(j)<n) and bare DO ... IF "
+        "(k(j)>n) EXIT ... END DO loops (PSyIR WhileLoops, outside other loops, "
+        "with guarded EXIT/CYCLE/RETURN and branches inside)} up to the size "
+        "bounds in bounds(); "
         "elements = program x every consecutive statement range of every sequence "
         "(routine body, loop body, if/else body) x {ProfileTrans, ExtractTrans, "
         "NanTestTrans, ReadOnlyVerifyTrans} x {default name, explicit region_name "
@@ -53,11 +56,12 @@ ASSUMPTIONS = [
     "only the order/matching of the calls that happen is",
 ]
 
-# size bounds: (max program size, max size of programs with a GOTO)
+# size bounds: (max program size, max size of programs with a GOTO, max size
+# of programs with a WHILE / bare DO loop)
 TIERS = {
-    "quick": {"single": (3, 3), "pair": (2, 2), "pair_extra": ["AAA"],
-              "batch": 100},
-    "thorough": {"single": (4, 4), "pair": (3, 3), "pair_extra": [],
+    "quick": {"single": (3, 3, 2), "pair": (2, 2, 0),
+              "pair_extra": ["AAA", "W(KI(X))"], "batch": 100},
+    "thorough": {"single": (4, 4, 3), "pair": (3, 3, 2), "pair_extra": [],
                  "batch": 100},
 }
 N3_PATH_CAP = 64
@@ -106,6 +110,7 @@ def bounds(tier):
     return {
         "single_region": {"max_size": TIERS[tier]["single"][0],
                           "max_size_goto": TIERS[tier]["single"][1],
+                          "max_size_while": TIERS[tier]["single"][2],
                           "programs": len(sing),
                           "ranges": sum(len(P.ranges(p)) for _, p in sing),
                           "transformations_and_names": {
@@ -114,6 +119,7 @@ def bounds(tier):
                               for t, names in SINGLE_NAMES[tier].items()}},
         "two_regions": {"max_size": TIERS[tier]["pair"][0],
                         "max_size_goto": TIERS[tier]["pair"][1],
+                        "max_size_while": TIERS[tier]["pair"][2],
                         "extra_programs": TIERS[tier]["pair_extra"],
                         "programs": len(pair),
                         "ordered_range_pairs": sum(len(P.ranges(p)) ** 2
